@@ -221,8 +221,23 @@ fn apply(fam: Family, idx: usize, honest: &[u8], other: &[u8], seed: u64, set_na
             } else {
                 let j = idx - n64;
                 let (value, block) = (j % 256, j / 256);
-                let plen = if set_name == "ml-dsa-65" { 128 } else { 96 }; // 32 * bits per field (eta = 4 : eta = 2)
-                let (lo, hi) = if block == 0 { (0, x.len()) } else { (128 + (block - 1) * plen, (128 + block * plen).min(x.len())) };
+                let sinfo = sets::set_by_name(set_name).expect("harness: set").info();
+                let plen = 32 * sinfo.eta_bits();
+                let (_, s_end) = sinfo.s_region();
+                let s1_end = 128 + sinfo.l * plen;
+                // blocks: 0 = whole key; 1..=k+l = one secret polynomial each; then whole s1, whole s2, whole s1||s2
+                let npoly = (s_end - 128) / plen;
+                let (lo, hi) = if block == 0 {
+                    (0, x.len())
+                } else if block <= npoly {
+                    (128 + (block - 1) * plen, 128 + block * plen)
+                } else if block == npoly + 1 {
+                    (128, s1_end)
+                } else if block == npoly + 2 {
+                    (s1_end, s_end)
+                } else {
+                    (128, s_end)
+                };
                 (4 + value, lo, hi)
             };
             for i in lo..hi {
@@ -354,7 +369,7 @@ pub fn run(ctx: &Ctx) -> i32 {
                 (Family::Lost, 2),
                 (Family::Torn, n),
                 (Family::MultiBit, multi_per_key),
-                (Family::Pattern, 4 * (1 + n.div_ceil(64)) + 256 * (1 + (set.info().k + set.info().l))),
+                (Family::Pattern, 4 * (1 + n.div_ceil(64)) + 256 * (4 + (set.info().k + set.info().l))),
             ] {
                 let start = if fam == Family::Torn { 1 } else { 0 };
                 let mut lo = start;
